@@ -517,7 +517,8 @@ def main():
         elif t[0] in ("EXC", "STDEXC"): results[t[1]] = l
     nrep = 0; keys = {}; nacc = 0; groups = {}; Kc = {}; monfail = set(); nreuse = 0; objlim = []
     Dk = {}; Dall = {}                     # degenerate stream: (K, E) by problem; total KKT allowance by run
-    dstat = {"runs": 0, "judged": 0, "judged_float": 0, "judged_nontrivial": 0, "max_float_allowance/eps": 0.0, "max_kkt_allowance/eps": 0.0,
+    dstat = {"runs": 0, "judged": 0, "judged_float": 0, "judged_nontrivial": 0, "judged_with_kkt_allowance_below_eps": 0, "judged_float_with_kkt_allowance_below_eps": 0,
+             "judged_with_kkt_allowance_below_eps/100": 0, "max_float_allowance/eps": 0.0, "max_kkt_allowance/eps": 0.0,
              "judged_by_family": {}, "judged_by_kernel": {}, "judged_by_geometry": {}}
     def rep(p, c, cid, key, msg):
         nonlocal nrep
@@ -549,6 +550,9 @@ def main():
                 dstat["max_float_allowance/eps"] = max(dstat["max_float_allowance/eps"], fall / p["eps"])
                 dstat["max_kkt_allowance/eps"] = max(dstat["max_kkt_allowance/eps"], kall / p["eps"])
                 if r[1] >= 2: dstat["judged_nontrivial"] += 1
+                # how sharp the KKT judgement is: runs whose whole allowance is below eps / below eps/100 (box and equality are exact in every run)
+                if kall <= p["eps"]: dstat["judged_with_kkt_allowance_below_eps"] += 1; dstat["judged_float_with_kkt_allowance_below_eps"] += c["ctype"] == "f"
+                if kall <= 0.01 * p["eps"]: dstat["judged_with_kkt_allowance_below_eps/100"] += 1
                 fk = "%s%s" % (p["trainer"], "" if p["trainer"] not in CS else ":bias%d" % p["bias"])
                 dstat["judged_by_family"][fk] = dstat["judged_by_family"].get(fk, 0) + 1
                 dstat["judged_by_kernel"][p["kernel"]] = dstat["judged_by_kernel"].get(p["kernel"], 0) + 1
@@ -771,8 +775,9 @@ def main():
         missing = [f_ for f_ in fams if not dstat["judged_by_family"].get(f_)]
         ck.oblige("degenerate-geometry stream: every trainer family has results reported as accurate and judged (%d of %d runs judged, %d with a float cache)"
                   % (dstat["judged"], dstat["runs"], dstat["judged_float"]), not missing, "no judged result for " + ", ".join(missing) if missing else "")
-    log("degenerate-geometry stream: %d runs, %d judged (%d float cache), max float allowance/eps %.3g, max KKT allowance/eps %.3g"
-        % (dstat["runs"], dstat["judged"], dstat["judged_float"], dstat["max_float_allowance/eps"], dstat["max_kkt_allowance/eps"]))
+    log("degenerate-geometry stream: %d runs, %d judged (%d float cache; KKT allowance below eps in %d, of them %d float cache; below eps/100 in %d), max float allowance/eps %.3g, max KKT allowance/eps %.3g"
+        % (dstat["runs"], dstat["judged"], dstat["judged_float"], dstat["judged_with_kkt_allowance_below_eps"], dstat["judged_float_with_kkt_allowance_below_eps"],
+           dstat["judged_with_kkt_allowance_below_eps/100"], dstat["max_float_allowance/eps"], dstat["max_kkt_allowance/eps"]))
     ck.notes["objective_mismatch_at_iteration_limit(not a claim of the property; see harness/c07_findings.txt)"] = {"runs": len(objlim), "samples": objlim[:3]}
     ck.notes["accuracy_reached"] = nacc; ck.notes["monitor_failures_by_key"] = keys; ck.notes["runs_in_agreement_groups"] = nagree
     by = {}
